@@ -1524,6 +1524,23 @@ def m_combinator(kind, which):
     return m
 
 
+def m_range_contains(eng, st, args, info):
+    """Range / RangeInclusive::contains with constant bounds and a constant item"""
+    def val(t):
+        while t[0] in ('ref', 'K', 'der'):
+            t = eng._read_lv(st, t[1]) if (t[0] == 'ref' and t[1][0] == 'L') else t[1]
+        return t
+    r, x = val(args[0]), val(args[1])
+    if r[0] == 'agg' and r[1] == 'adt' and str(r[2]).startswith('std::ops::Range') and is_const(x) and isinstance(x[1], int):
+        f = dict(r[4])
+        lo, hi = f.get('start'), f.get('end')
+        if lo is not None and hi is not None and is_const(lo) and is_const(hi):
+            if str(r[2]).endswith('RangeInclusive'):
+                return [(st, C(lo[1] <= x[1] <= hi[1]))]
+            return [(st, C(lo[1] <= x[1] < hi[1]))]
+    return None
+
+
 def m_option_cloned(eng, st, args, info):
     """Option<&T>::cloned / copied: Some(&x) -> Some(x)"""
     x = args[0]
@@ -1779,6 +1796,8 @@ DEFAULT_MODELS = {
     'std::option::Option::<T>::map': m_combinator('option', 'map'),
     'std::result::Result::<T, E>::map': m_combinator('result', 'map'),
     'std::result::Result::<T, E>::map_err': m_combinator('result', 'map_err'),
+    'std::ops::Range::<Idx>::contains': m_range_contains,
+    'std::ops::RangeInclusive::<Idx>::contains': m_range_contains,
     'std::option::Option::<&T>::cloned': m_option_cloned,
     'std::option::Option::<&T>::copied': m_option_cloned,
     'std::option::Option::<&mut T>::cloned': m_option_cloned,
